@@ -1,3 +1,8 @@
--- Root of the `Splipy` verification library.
+-- Root of the `Splipy` verification library (generated: imports every module).
+import Splipy.Driver.All
+import Splipy.Driver.C01
+import Splipy.Driver.Common
+import Splipy.Model.Basis
+import Splipy.Properties.C01
 import Splipy.Proto.Val
 import Splipy.Spec.BSpline
